@@ -114,7 +114,7 @@ fn judge(
     rejected: &BTreeMap<usize, String>,
     runs: &BTreeMap<(usize, usize), RunRes>,
     on_eval: &mut dyn FnMut(usize, usize),
-) -> Result<(), Fail> {
+) -> Result<(), (Fail, usize, Option<usize>)> {
     let progs = &g.case.programs;
     let stateful = progs[0].stateful_sig();
     // (i) front-end verdicts
@@ -125,7 +125,7 @@ fn judge(
             Verdict::Reject(s) => format!("rejected: {s}"),
             _ => "accepted".to_string(),
         };
-        return Err(Fail::new(
+        return Err((Fail::new(
             format!("variants-disagree:front-end-verdict:{stateful}"),
             format!(
                 "the front end {} the base program but {} variant {k} ({:?})\nbase:\n{}variant:\n{}",
@@ -135,7 +135,7 @@ fn judge(
                 g.members[0].dfir,
                 g.members[k].dfir
             ),
-        ));
+        ), k, None));
     }
     if !accepts[0] {
         return Ok(()); // all rejected alike
@@ -145,13 +145,13 @@ fn judge(
     if rj.iter().any(|a| *a != rj[0]) {
         let k = rj.iter().position(|a| *a != rj[0]).unwrap();
         let (bad, _good) = if rj[0] { (0, k) } else { (k, 0) };
-        return Err(Fail::new(
+        return Err((Fail::new(
             format!("variants-disagree:rustc-verdict:{stateful}"),
             format!(
                 "rustc accepts one of base/variant {k} ({:?}) and rejects the other:\n{}\nbase:\n{}variant:\n{}",
                 g.case.descs[k], rejected[&bad], g.members[0].dfir, g.members[k].dfir
             ),
-        ));
+        ), k, None));
     }
     if rj[0] {
         return Ok(());
@@ -164,7 +164,7 @@ fn judge(
         for k in 0..progs.len() {
             match runs.get(&(k, si)) {
                 Some(RunRes::Ok { log, ticks: t }) => {
-                    let mut gr = group_actual(log).map_err(|e| Fail::new("decode", e))?;
+                    let mut gr = group_actual(log).map_err(|e| (Fail::new("decode", e), k.max(1), Some(si)))?;
                     normalise(&mut gr, &ord);
                     groups.push(Ok(gr));
                     ticks.push(t.clone());
@@ -207,7 +207,7 @@ fn judge(
                     }
                     _ => "panic",
                 };
-                return Err(Fail::new(
+                return Err((Fail::new(
                     format!("variants-disagree:outputs:{stateful}"),
                     format!(
                         "{d}\n({side})\nvariant {k}: {:?}\nbase:\n{}variant:\n{}script #{si}: {}",
@@ -216,11 +216,23 @@ fn judge(
                         g.members[k].dfir,
                         script_wire(&g.case.scripts[si])
                     ),
-                ));
+                ), k, Some(si)));
             }
         }
     }
     Ok(())
+}
+
+/// Keep only the base and variant `k` (and one script) of a failing group.
+fn shrink_group(case: &Case22, k: usize, si: Option<usize>) -> Case22 {
+    Case22 {
+        programs: vec![case.programs[0].clone(), case.programs[k].clone()],
+        descs: vec![case.descs[0].clone(), case.descs[k].clone()],
+        scripts: match si {
+            Some(si) => vec![case.scripts[si].clone()],
+            None => case.scripts.clone(),
+        },
+    }
 }
 
 fn plan_group(case: Case22, origins: Vec<Vec<Option<usize>>>) -> GroupPlan {
@@ -355,7 +367,7 @@ changed its pull/push role or the set of operators sharing its subgraph in the v
             let r = judge(&groups[0], &rej[0], &runs[0], &mut |_, _| {});
             // probes keep their exact signature
             match r {
-                Err(f) => {
+                Err((f, _, _)) => {
                     let sig = probe_groups()
                         .into_iter()
                         .find(|(_, _, c)| c == case)
@@ -487,8 +499,8 @@ changed its pull/push role or the set of operators sharing its subgraph in the v
                     json!({"base": g.members[0].dfir, "variant": g.members[k].dfir, "rewrites": g.case.descs[k]})
                 });
             }
-            if let Err(f) = res {
-                failures.push((f, g.case.clone()));
+            if let Err((f, k, si)) = res {
+                failures.push((f, shrink_group(&g.case, k, si)));
             }
             let _ = &g.origins;
         }
@@ -519,7 +531,7 @@ changed its pull/push role or the set of operators sharing its subgraph in the v
                     obs.nontrivial(true);
                     obs.class("known-finding-probe");
                     ctx.record(SUB_PROBE, hash64(&g.case), &obs, || serde_json::Value::Null);
-                    if let Err(f) = res {
+                    if let Err((f, _, _)) = res {
                         let (sig, what, _) = &probes[gi];
                         ctx.report(
                             SUB_PROBE,
